@@ -100,6 +100,7 @@ def relocate_ext(case):
         for cmd in cmds:
             cmd["dirs"] = [[k, mv(d) if d != "../ext" else "ext_in"] for k, d in cmd.get("dirs", [])]
             cmd["forced"] = [mv(f) for f in cmd.get("forced", [])]
+            cmd["file"] = mv(cmd["file"])
     return c
 
 
